@@ -123,6 +123,10 @@ pub struct W<'a> {
     /// cross-reference streams: write /W [0 n m] (no type field; every entry then is of the default type 1) whenever all
     /// entries of the section are ordinary in-use entries
     pub omit_type_field: bool,
+    /// cross-reference streams: leave /Index out when the section lists every number 0 .. /Size-1 (the default is [0 Size])
+    pub omit_index_when_default: bool,
+    /// cross-reference streams: 8-byte second and third fields (any width up to 8 is legal)
+    pub wide_fields: bool,
 }
 
 impl<'a> W<'a> {
@@ -130,7 +134,7 @@ impl<'a> W<'a> {
         let mut buf = prefix.to_vec();
         let base = buf.len();
         buf.extend_from_slice(format!("%PDF-{}\n%\u{e2}\u{e3}\u{cf}\u{d3}\n", version).as_bytes().iter().map(|&b| b).collect::<Vec<u8>>().as_slice());
-        W { buf, base, crypt: None, pending: BTreeMap::new(), last_xref: None, omit_type_field: false }
+        W { buf, base, crypt: None, pending: BTreeMap::new(), last_xref: None, omit_type_field: false, omit_index_when_default: false, wide_fields: false }
     }
     pub fn pos(&self) -> usize { self.buf.len() - self.base }
     pub fn obj(&mut self, nr: u32, gen: u16, o: &Obj) {
@@ -211,8 +215,8 @@ impl<'a> W<'a> {
         let keys: Vec<u32> = entries.keys().cloned().collect();
         let maxf2 = entries.values().map(|e| match e { XEntry::Free { next, .. } => *next as u64, XEntry::InUse { off, .. } => *off as u64, XEntry::Compressed { stm, .. } => *stm as u64 }).max().unwrap_or(0);
         let maxf3 = entries.values().map(|e| match e { XEntry::Free { gen, .. } | XEntry::InUse { gen, .. } => *gen as u64, XEntry::Compressed { idx, .. } => *idx as u64 }).max().unwrap_or(0);
-        let w2 = ((64 - maxf2.leading_zeros() as usize + 7) / 8).max(1);
-        let w3 = ((64 - maxf3.leading_zeros() as usize + 7) / 8).max(1);
+        let w2 = if self.wide_fields { 8 } else { ((64 - maxf2.leading_zeros() as usize + 7) / 8).max(1) };
+        let w3 = if self.wide_fields { 8 } else { ((64 - maxf3.leading_zeros() as usize + 7) / 8).max(1) };
         let no_type = self.omit_type_field && entries.values().all(|e| matches!(e, XEntry::InUse { .. }));
         let mut data = Vec::new();
         let mut index = Vec::new();
@@ -235,7 +239,9 @@ impl<'a> W<'a> {
         }
         let (mut extra, enc) = encode(&data);
         let mut d: Vec<(Vec<u8>, Obj)> = vec![(b"Type".to_vec(), name("XRef")), (b"Size".to_vec(), Obj::Int(size as i64)),
-            (b"W".to_vec(), ints(&[if no_type { 0 } else { 1 }, w2 as i64, w3 as i64])), (b"Index".to_vec(), Obj::Arr(index))];
+            (b"W".to_vec(), ints(&[if no_type { 0 } else { 1 }, w2 as i64, w3 as i64]))];
+        let is_default = keys.len() as u32 == size && keys.first() == Some(&0) && keys.last() == Some(&(size - 1)) && index.len() == 2;
+        if !(self.omit_index_when_default && is_default) { d.push((b"Index".to_vec(), Obj::Arr(index))); }
         if let Some(p) = self.last_xref { d.push((b"Prev".to_vec(), Obj::Int(p as i64))); }
         d.append(&mut trailer);
         d.append(&mut extra);
